@@ -144,6 +144,16 @@ def per_long_start(item):
             'counters': {'schedules_built': n, 'long_schedules': n}}
 
 
+def per_env_start(item):
+    """the same schedules and the same clock in a process whose LOCAL time zone is not UTC"""
+    z, o, ns, tier = item
+    with rm.process_tz(z):
+        out = per_start((o, ns, tier))
+    for v in out['viols']:
+        v['case'] = dict(v.get('case', {}), process_tz=z)
+    return out
+
+
 def items(tier):
     its = [it + (tier,) for it in calendar_items(tier)]
     if tier == 'thorough':
@@ -170,6 +180,13 @@ def run(tier, res, is_known):
         return
     from .c12 import long_items
     product(per_long_start, long_items(tier), res, is_known, label='ranges of 1-3 years', chunk=1)
+    if any(not is_known(v) for v in res.violations):
+        return
+    from .c12 import env_items, future_items
+    product(per_env_start, [it + (tier,) for it in env_items(tier)], res, is_known, label='process-local time zone other than UTC',
+            chunk=1)
+    product(per_start, [it + (tier,) for it in future_items(tier)], res, is_known, label='windows around and after the day of the run',
+            chunk=2)
     res.states = res.extra.get('schedules_built', 0)
     res.transitions = res.states
     shapes = res.extra.pop('shapes', set())
@@ -178,6 +195,9 @@ def run(tier, res, is_known):
 
 
 def replay(case):
+    if case.get('process_tz'):
+        with rm.process_tz(case['process_tz']):
+            return replay({k: v for k, v in case.items() if k != 'process_tz'})
     start, end = pd.Timestamp(case['start']), pd.Timestamp(case['end'])
     if 'bad_weekday' in case or 'lower_weekday' in case:
         fs = check_bad_weekdays(start, end)
